@@ -186,7 +186,19 @@ SURVEYS = [
     [{"type": "text", "name": "q1", "label::English (en)": "Q1", "label::fr": "Q1f"}],
     [{"type": "select_one yn", "name": "q1", "label": "Q1"}, {"type": "start", "name": "start"}],
 ]
+SURVEYS += [
+    [{"type": "text", "name": "q1", "label::English (en)": "Q1", "label::fr": "Q1f", "hint::fr": "H"},
+     {"type": "note", "name": "n1", "label::default": "N", "label::xx": "Nx"}],
+    [{"type": "text", "name": "q1", "label::English (en)": "Q1", "label::fr": "Q1f"}],
+]
 CHOICES = [{"list_name": "yn", "name": "y", "label": "Y"}, {"list_name": "yn", "name": "n", "label": "N"}]
+
+
+def file_stem(name: str) -> str:
+    """the documented fallback: the file name without its last suffix (a leading dot is part of the name;
+    a trailing dot is not a suffix separator)"""
+    i = name.rfind(".")
+    return name if i <= 0 or i == len(name) - 1 else name[:i]
 
 
 def gen_case(rng, tier_big=False, subset=None):
@@ -287,11 +299,45 @@ def gen_case(rng, tier_big=False, subset=None):
     fallback = None
     if channel.startswith("path") or (channel == "dict" and rng.random() < 0.4):
         fallback = rng.choice(STEMS) if rng.random() < 0.8 else (tame(rng, 3).replace("/", "_").replace(":", "_").replace('"', "_").replace("<", "_").replace(">", "_") if channel != "dict" else adv(rng, 3))
+    filename = None
+    if channel.startswith("path"):
+        # the file name decides the fallback (its stem) whatever the suffix says about the format: exact
+        # supported suffixes, other spellings of them, foreign suffixes, several dots, no suffix at all
+        xl = channel == "path-xlsx"
+        ext = rng.choice(([".xlsx"] * 4 + [".XLSX", ".Xlsx", ".xlsm", ".dat", ".xlsx.bak", ""]) if xl else
+                         ([".md"] * 4 + [".MD", ".txt", ".markdown", ".Md", ".md.txt", ""]))
+        if not fallback.strip(". "):
+            fallback = "f" + fallback
+        filename = fallback + ext
+        fallback = file_stem(filename)
     has_sheet = bool(cells) or (channel == "dict" and rng.random() < 0.5)
     survey = copy.deepcopy(rng.choice(SURVEYS))
+    # legacy: settings given as rows of the survey sheet (type = a settings alias, name = the value); they are
+    # applied after the settings sheet, in row order
+    survey_settings, overlay = [], []
+    if subset is None and rng.random() < 0.15:
+        for _ in range(rng.randint(1, 3)):
+            ty = rng.choice(["form_title", "set_form_title", "form_id", "set_form_id", "prefix"])
+            canon = {"form_title": "title", "set_form_title": "title", "form_id": "id_string",
+                     "set_form_id": "id_string", "prefix": "prefix"}[ty]
+            r = rng.random()
+            nm = None if r < 0.08 else "None" if r < 0.12 else " ".join(tame(rng, 4).split())
+            row = {"type": ty}
+            if nm is not None:
+                row["name"] = nm
+            if rng.random() < 0.3:
+                row["label"] = "ignored"
+            survey.insert(rng.randint(0, len(survey)) if not any(x.get("type", "").startswith("begin") for x in survey) else 0, row)
+            survey_settings.append([ty, nm, id(row)])
+        # in sheet order
+        order = {id(r): i for i, r in enumerate(survey)}
+        survey_settings.sort(key=lambda x: order[x[2]])
+        survey_settings = [[t, n] for t, n, _ in survey_settings]
+        canon_of = {"form_title": "title", "set_form_title": "title", "form_id": "id_string", "set_form_id": "id_string", "prefix": "prefix"}
+        overlay = [[canon_of[t], "None" if n is None else n] for t, n in survey_settings]
     return {
         "channel": channel, "hdr": hdr, "row": cells, "intended": intended, "attribute": attribute,
-        "args": args, "fallback": fallback, "survey": survey, "dup": dup, "has_sheet": has_sheet,
+        "args": args, "fallback": fallback, "filename": filename, "survey": survey, "survey_settings": survey_settings, "overlay": overlay, "dup": dup, "has_sheet": has_sheet,
         "typed": channel.endswith("xlsx") and rng.random() < 0.5,
     }
 
@@ -346,10 +392,9 @@ def run_impl(case, tmpdir):
                 wb["fallback_form_name"] = case["fallback"]
             res = convert(xlsform=copy.deepcopy(wb), **kw)
         elif ch in ("path-xlsx", "path-md", "path-obj-md"):
-            ext = ".xlsx" if ch == "path-xlsx" else ".md"
             d = Path(tempfile.mkdtemp(dir=tmpdir))
-            p = d / (case["fallback"] + ext)
-            if ext == ".xlsx":
+            p = d / (case.get("filename") or (case["fallback"] + (".xlsx" if ch == "path-xlsx" else ".md")))
+            if ch == "path-xlsx":
                 p.write_bytes(to_xlsx_bytes(form, case["typed"]))
             else:
                 p.write_text(impl.to_md(form), encoding="utf-8")
@@ -422,7 +467,11 @@ def observe_header(xform: str):
         else:
             iname = "<instanceName element/bind/calculate incomplete>"
     battrs = attrs_of(body)
+    itexts = [e for e in elems(model) if e["t"] == "itext"]
+    translations = [[attrs_of(t).get("lang"), attrs_of(t).get("default")] for it in itexts for t in elems(it)
+                    if t["t"] == "translation"]
     return {
+        "translations": translations,
         "title": text_of(titles[0]) if len(titles) == 1 else f"<{len(titles)} h:title elements>",
         "rootName": root["t"],
         "rootAttrs": attrs_of(root),
@@ -482,6 +531,8 @@ def model_call(ctx, case):
     kw = dict(case["args"])
     if case["fallback"] is not None:
         kw["fallback"] = case["fallback"]
+    if case.get("survey_settings"):
+        kw["survey_settings"] = case["survey_settings"]
     if case["has_sheet"] and case["row"]:
         return ctx.driver.call("settings.model", hdr=case["hdr"], row=case["row"], **kw)
     return ctx.driver.call("settings.model", **kw)
@@ -498,6 +549,9 @@ def spec_call(ctx, case, obs):
             "seenSub": sorted(obs["submission"] or {}),
             "seenNs": sorted(obs["nsmap"]),
         }
+    if case.get("overlay"):
+        kw["overlay"] = case["overlay"]
+        ctx.count("survey_sheet_settings_rows")
     return ctx.driver.call("settings.spec", settings=case["intended"], attribute=case["attribute"], **kw, **seen)
 
 
@@ -523,6 +577,10 @@ def xml_problem(case):
     names must be QNames with a declared prefix, namespace URIs non-empty, prefixes not xml/xmlns, values free
     of non-XML characters) → the only acceptable outcome is a PyXFormError saying so."""
     intended = dict(case["intended"])
+    pre_id = intended.get("id_string")
+    intended.update({k: v for k, v in case.get("overlay") or []})  # settings rows of the survey sheet win
+    if "title" not in intended and pre_id is not None:
+        intended["title"] = pre_id  # the title default is the settings sheet's id
     decl = declared_namespaces(intended.get("namespaces", ""))
     for p, uri in decl.items():
         if not NCNAME.fullmatch(p) or p in ("xml", "xmlns") or uri == "":
@@ -579,6 +637,9 @@ def one_case(ctx, case, tmpdir):
     m = model_call(ctx, case)
     ctx.count(f"impl:{r['class']}/model:{m['outcome']}")
     ctx.count("channel:" + case["channel"])
+    if case.get("filename"):
+        fn = case["filename"]
+        ctx.count("path_suffix:" + (fn[fn.rfind("."):] if "." in fn[1:] else "(none)")[:12])
     ctx.count("n_settings:%02d" % len(case["intended"] + case["attribute"]))
     ctx.count("fragment:" + ("unsupported" if m["outcome"] == "unsupported" else "modelled"))
     if m["outcome"] == "unsupported":
@@ -603,6 +664,14 @@ def one_case(ctx, case, tmpdir):
         if r["class"] != "pyxform" or not err_matches(m["err"]["kind"], r["msg"]):
             ctx.mismatch("model rejects (" + m["err"]["kind"] + "), implementation " + r["class"], case,
                          r.get("msg", "")[:300], m["err"])
+    # ---------------- default translation (default_language setting / argument)
+    if r["class"] == "ok" and obs["translations"]:
+        ctx.count("with_translations")
+        marks = {l: d for l, d in obs["translations"]}
+        if m["outcome"] == "ok" and m.get("defaultLanguage") is not None:
+            wantm = {l: ("true()" if l == xml_norm(m["defaultLanguage"], True) else None) for l in marks}
+            if wantm != marks:
+                ctx.mismatch("default translation", case, marks, m["defaultLanguage"])
     # ---------------- oracle on the implementation's output
     if r["class"] == "internal":
         ctx.fail(Failure("crash", r["msg"][:300], case, signature="crash:" + r.get("site", ""), extra={"site": r.get("site")}))
@@ -629,6 +698,12 @@ def one_case(ctx, case, tmpdir):
                 for k in diff_locs(obs, want):
                     ctx.fail(Failure("header:" + k, f"{k}: read {obs[k]!r}, settings prescribe {want[k]!r}", case,
                                      signature="header:" + k, extra={"loc": k, "got": obs[k], "want": want[k]}))
+                if obs["translations"]:
+                    marks = {l: d for l, d in obs["translations"]}
+                    wantm = {l: ("true()" if l == s["defaultLanguage"] else None) for l in marks}
+                    if wantm != marks and not (has_ws(case) and {l: ("true()" if l == xml_norm(s["defaultLanguage"], True) else None) for l in marks} == marks):
+                        ctx.fail(Failure("header:default-translation",
+                                         f"translations marked default: {marks}, documented default language {s['defaultLanguage']!r}", case))
                 if obs["htmlOther"] or obs["bodyOther"]:
                     ctx.fail(Failure("header:stray-attribute", f"h:html {obs['htmlOther']} h:body {obs['bodyOther']}", case))
         else:
@@ -642,7 +717,7 @@ def one_case(ctx, case, tmpdir):
                 ctx.fail(Failure("rejected-valid-settings", msg[:300], case))
             elif s["rejects"] is not None and not excused and not err_matches(s["rejects"]["kind"], msg):
                 ctx.fail(Failure("rejected-for-another-reason", msg[:300], case, extra={"spec": s["rejects"]}))
-    ctx.record({k: case[k] for k in ("channel", "hdr", "row", "args", "fallback", "survey", "has_sheet")},
+    ctx.record({k: case[k] for k in ("channel", "hdr", "row", "args", "fallback", "filename", "survey", "has_sheet") if k in case},
                r["class"] == "ok" and bool(case["intended"] or case["attribute"]))
 
 
